@@ -43,6 +43,20 @@ fn mutants(base: &MShred, other_sig: [u8; 64], thorough: bool) -> Vec<Mutant> {
             push("slice-index-changed", m, false);
         }
     }
+    // slot and slice index changed together (replays under a neighbouring slot with the slice index
+    // shifted by a power of two: catches commitments that pack the two fields non-injectively)
+    for ds in [-2i64, -1, 1, 2] {
+        for mult in [1i64, 2, 32, 63, 64, 65, 128, 256, 512, 1024] {
+            let slot = base.p().header.slot as i64 + ds;
+            let slice = base.p().header.slice_index as i64 - ds * mult;
+            if slot >= 0 && (0..1024).contains(&slice) {
+                let mut m = base.clone();
+                m.p_mut().header.slot = slot as u64;
+                m.p_mut().header.slice_index = slice as u64;
+                push("slot-and-slice-changed-together", m, false);
+            }
+        }
+    }
     let mut m = base.clone();
     m.p_mut().header.is_last = !m.p().header.is_last;
     push("last-flag-flipped", m, false);
@@ -429,7 +443,7 @@ pub fn run(tier: Tier) -> i32 {
     let cov = json!({
         "evaluations": evals,
         "distinct_nontrivial": nontrivial,
-        "rule": "base shreds (indices at both ends and around the data/coding boundary) of a 2-slice and a 1-slice block signed by the leader; every mutation of the menu (slot, slice index, last flag, shred index -> each of the other 63, one flipped bit per payload byte (quick: every 7th), payload length, every proof element flipped/dropped/swapped, proof lengths 0..33, signature bytes flipped / replaced, type tag) x cached commitment in {none, identical, different validly signed one, one of another slot}; every mutant that passes validation is fed with genuine shreds at 4 positions to a real blockstore; two conflicting signed slices in both orders at the blockstore, and the conflicting slice arriving after 31 / 32 genuine shreds of the slice, after the other slice, and after the whole block was stored; non-trivial = every mutated or conflicting case; all distinct by construction",
+        "rule": "base shreds (indices at both ends and around the data/coding boundary) of a 2-slice and a 1-slice block signed by the leader; every mutation of the menu (slot, slice index, slot and slice index together, last flag, shred index -> each of the other 63, one flipped bit per payload byte (quick: every 7th), payload length, every proof element flipped/dropped/swapped, proof lengths 0..33, signature bytes flipped / replaced, type tag) x cached commitment in {none, identical, different validly signed one, one of another slot}; every mutant that passes validation is fed with genuine shreds at 4 positions to a real blockstore; two conflicting signed slices in both orders at the blockstore, and the conflicting slice arriving after 31 / 32 genuine shreds of the slice, after the other slice, and after the whole block was stored; non-trivial = every mutated or conflicting case; all distinct by construction",
         "exhaustive": true,
         "mutants_per_class_and_base": classes,
         "mutants_passing_validation": passing.len(),
